@@ -102,6 +102,15 @@ V2Vectors ==
              class |-> "auth-" \o a[1] \o "-pt" \o ToString(pt),
              fields |-> V2Fields(w), payload |-> w.payload, exp |-> [err |-> FALSE, bytesT |-> V2AuthT(w, a[1], key, a[2])]] }
           : pt \in {0, 2, 32}, n \in lens, a \in Integs }
+\* every prefix of a wrapper, for every payload type and every combination of the encrypted / authenticated flags
+\* (the OEM explicit header is 6 bytes longer): no input may crash the decoder or make it read past the datagram (C05)
+V2Prefixes ==
+  UNION { LET w == [WBase(3 * pt + 1, pt, au, 9) EXCEPT !.enc = en]
+              full == V2Unauth(w) \o <<255, 255, 2, 7>> \o RBytes(pt + 7, 12) IN
+          { [id |-> "V2Session/prefix/" \o ToString(pt) \o (IF en THEN "e" ELSE "-") \o (IF au THEN "a" ELSE "-") \o "/" \o ToString(n),
+             prop |-> "C05", kind |-> "decode", layer |-> "V2Session", class |-> "prefix-pt" \o ToString(pt) \o (IF en THEN "e" ELSE "-") \o (IF au THEN "a" ELSE "-"),
+             bytes |-> Take(full, n), exp |-> [any |-> TRUE]] : n \in 0..Len(full) }
+          : pt \in PTypes, en \in BOOLEAN, au \in BOOLEAN }
 \* a length field that exceeds the data by d: rejected (C07)
 V2LenCorrupt ==
   UNION { LET w == WBase(11 + pt, pt, FALSE, 9) IN
@@ -184,7 +193,7 @@ AesVectors ==
 
 Vectors == CASE Family = "aes" -> AesVectors
              [] Family = "message" -> MsgVectors \cup MsgCorrupt \cup MsgShortSet \cup MsgReuse
-             [] Family = "wrapper" -> V2Vectors \cup V2LenCorrupt \cup V1Vectors \cup V1Reuse
+             [] Family = "wrapper" -> V2Vectors \cup V2LenCorrupt \cup V1Vectors \cup V1Reuse \cup V2Prefixes
              [] Family = "setup" -> Rakp1Vectors \cup SetupVectors
 ASSUME \A v \in Vectors : PrintT(<<"SCRIPT", ToJson(v)>>)
 ASSUME PrintT(<<"COUNT", ToJson([n |-> Cardinality(Vectors)])>>)
